@@ -16,20 +16,45 @@ class TickerModel:
         self.ops = []          # dict(fn, bb, kind, shard_arg, key, value, term)
         if not self.adt:
             return
+        # a shard given a type of its own (`struct Shard(RwLock<HashMap<..>>)`): the index is the type holding the
+        # collection of them
+        for _ in range(3):
+            sh = self.adt.split("::")[-1]
+            up = None
+            for name, adt in F.adts.items():
+                if adt["kind"] == "Struct" and name != self.adt:
+                    for fl in adt["variants"][0]["fields"]:
+                        ty = fl["ty"]
+                        if self.adt in ty and ("[" + self.adt in ty or "Vec<" + self.adt in ty):
+                            up = (name, fl["name"])
+            if up is None:
+                break
+            self.adt, self.SHARDS = up
         short = self.adt.split("::")[-1]
+        from sym import ipaths
         for name, f in F.fns.items():
+            if not (f.rec.get("ret") == "usize" and f.argc >= 1 and short in f.locals[1]["ty"] and f.kind != "Closure"):
+                continue
             r = f.origin_local(0)
-            if f.rec.get("ret") == "usize" and r[0] == "binop" and r[1] == "Rem" and f.argc >= 1 and short in f.locals[1]["ty"]:
+            if r[0] == "binop" and r[1] == "Rem":
+                self.shard_fns.add(name)
+                continue
+            # the modulo may sit in a helper (`SecondsSinceEpoch::from(t).modulo(n)`)
+            rets = [p_.ret for p_ in ipaths(F, f, stop=lambda n_: False, depth=3)]
+            if rets and all(x[0] == "binop" and x[1] == "Rem" for x in rets):
                 self.shard_fns.add(name)
         # Operations are read off path-sensitive paths (sym.py) of the ticker's *entry points*: its functions called from
         # outside the type, and the thread closures it spawns.  Private helpers, closures and generic
         # `with_locked_shard(t, |shard| ..)` wrappers are inlined, so an operation is always seen with the shard
         # expression in the entry point's own terms, and `update = delete(old); put(new)` is seen as remove + insert.
-        from sym import ipaths
         spawn = F.spawn_closures()
 
+        module = self.adt.rsplit("::", 1)[0] + "::"
+
         def of_ticker(g):
-            return g.kind != "Closure" and g.argc >= 1 and short in g.locals[1]["ty"]
+            # a function of the ticker: defined in the ticker's module and taking the ticker first.  A helper elsewhere
+            # that merely receives the ticker (to call its entry points) is one of its users.
+            return g.kind != "Closure" and g.argc >= 1 and short in g.locals[1]["ty"] and g.name.startswith(module)
         tick_fns = [g for n_, g in F.fns.items() if of_ticker(g)]
         roots = []
         for g in tick_fns:
@@ -57,16 +82,35 @@ class TickerModel:
                     recv = e.args[0]
                     locks = [x for x in root_calls(recv) if lock_call({"rpath": x[1], "gargs": ["", "hashbrown::HashMap<u64, std::time::SystemTime"]})]
                     shard_arg = None
+                    mapping = None
                     whole = False
                     if locks and locks[0][2]:
                         tgt = locks[0][2][0]
+                        while tgt[0] == "field" and tgt[1][0] in ("index", "field") and tgt[1] != ("param", 1):
+                            tgt = tgt[1]                      # the lock inside a shard newtype: shards[i].0
                         if tgt[0] == "index":
                             idx = tgt[2]
                             if idx[0] == "call" and idx[1] in self.shard_fns:
                                 shard_arg = idx[2][1]
+                                mapping = ("fn", idx[1])
+                            elif idx[0] == "binop" and idx[1] == "Rem":
+                                # the mapping written out (or merged into a `shard_for(t) -> &Shard` helper): the time it
+                                # is computed from, and the computation with that time abstracted
+                                ds = [x for x in subexprs(idx) if x[0] == "call" and x[1].endswith("SystemTime::duration_since") and x[2]]
+                                if len({repr(strip_site(x[2][0])) for x in ds}) == 1:
+                                    shard_arg = ds[0][2][0]
+                                    hole = strip_site(shard_arg)
+
+                                    def abstract(x):
+                                        if x == hole:
+                                            return ("hole",)
+                                        if isinstance(x, tuple) and len(x) == 3 and x[0] == "field" and x[2] == self.SHARDS:
+                                            return ("shards",)
+                                        return tuple(abstract(y) if isinstance(y, tuple) else y for y in x) if isinstance(x, tuple) else x
+                                    mapping = ("expr", repr(abstract(strip_site(idx))))
                         elif tgt[0] == "param":
                             whole = True
-                    o = {"fn": root, "bb": e.bb, "site_fn": e.fn, "kind": kind, "shard_arg": shard_arg, "args": list(e.args[1:]), "term": e.t, "whole": whole, "seq": e.seq}
+                    o = {"fn": root, "bb": e.bb, "site_fn": e.fn, "kind": kind, "shard_arg": shard_arg, "args": list(e.args[1:]), "term": e.t, "whole": whole, "seq": e.seq, "mapping": mapping}
                     seq.append(o)
                     key = (e.fn.name, e.bb, kind, repr(strip_site(shard_arg)) if shard_arg is not None else None)
                     if key not in seen:
